@@ -265,6 +265,11 @@ func (n *normalizer) field(f *sField, v *jval, path string) (*jval, error) {
 		}
 		x, err := strconv.ParseUint(t, 10, bits)
 		if err != nil {
+			if z, e2 := strconv.ParseInt(t, 10, 64); e2 == nil && z == 0 {
+				err = nil // "-0" denotes zero
+			}
+		}
+		if err != nil {
 			if strings.HasPrefix(strings.TrimSpace(t), "-") {
 				if _, e2 := strconv.ParseInt(t, 10, 64); e2 == nil {
 					return nil, nfail("range:"+f.kind, path)
@@ -328,7 +333,7 @@ func (n *normalizer) field(f *sField, v *jval, path string) (*jval, error) {
 		if !ok {
 			return nil, nfail("wrong-type:decimal", path)
 		}
-		d, err := decimal.NewFromString(t)
+		d, err := safeDecimal(t)
 		if err != nil {
 			return nil, nfail("bad-decimal", path)
 		}
@@ -605,4 +610,17 @@ func isZeroJSON(f *sField, nv *jval) bool {
 		}
 	}
 	return false
+}
+
+// safeDecimal parses a decimal the way the codec accepts it since /repo 158a5b4: exponents beyond
+// ±4096 are rejected (expanding them to plain notation is a denial of service, for the harness too).
+func safeDecimal(s string) (decimal.Decimal, error) {
+	d, err := decimal.NewFromString(s)
+	if err != nil {
+		return d, err
+	}
+	if e := d.Exponent(); e > 4096 || e < -4096 {
+		return d, fmt.Errorf("decimal exponent out of range")
+	}
+	return d, nil
 }
